@@ -40,6 +40,8 @@ struct ERow {
     bad: Option<(usize, String)>,
     /// the row has one field too few
     short: bool,
+    /// another spelling of one cell that decodes to the same value ("+3", "007", "1e999" for inf)
+    alt: Option<(usize, String)>,
 }
 
 #[derive(Clone, Debug)]
@@ -49,6 +51,7 @@ struct VRow {
     y: f32,
     bad: Option<(usize, String)>,
     short: bool,
+    alt: Option<(usize, String)>,
 }
 
 #[derive(Clone, Debug)]
@@ -74,6 +77,27 @@ struct Enc {
     absent: bool,
     /// the file is written with no content at all (not even a header)
     empty: bool,
+    /// the text starts with a UTF-8 byte order mark
+    bom: bool,
+    /// number of gzip members the text is spread over (RFC 1952 allows several; 1 is the usual file)
+    members: usize,
+    /// the gzip stream is cut short
+    cut: Option<Cut>,
+    /// the file name is not valid UTF-8
+    nonutf8_name: bool,
+}
+
+/// where a gzip file is cut short
+#[derive(Clone, Copy, Debug, PartialEq)]
+enum Cut {
+    /// keep this many bytes (2 ..= 9) of the ten-byte gzip header
+    Header(usize),
+    /// keep the header and this many bytes (0 ..= 10) of the first deflate block
+    Early(usize),
+    /// keep this many thousandths of the stream
+    Frac(usize),
+    /// drop this many bytes (1 ..= 8) of the CRC / length trailer
+    Trailer(usize),
 }
 
 impl Enc {
@@ -92,6 +116,10 @@ impl Enc {
             misnamed: false,
             absent: false,
             empty: false,
+            bom: false,
+            members: 1,
+            cut: None,
+            nonutf8_name: false,
         }
     }
     fn random(rng: &mut Rng, n_named: usize, permute: bool) -> Enc {
@@ -114,11 +142,15 @@ impl Enc {
             misnamed: false,
             absent: false,
             empty: false,
+            bom: rng.chance(1, 8),
+            members: if rng.chance(1, 5) { 2 + rng.below(3) } else { 1 },
+            cut: None,
+            nonutf8_name: false,
         }
     }
     fn descr(&self) -> String {
         format!(
-            "{}{}{}b{}o{}x{}{}{}{}{}{}{}",
+            "{}{}{}b{}o{}x{}{}{}{}{}{}{}{}{}{}{}",
             if self.gz { "gz" } else { "pl" },
             if self.cr_only { "R" } else if self.crlf { "C" } else { "L" },
             if self.final_newline { "N" } else { "n" },
@@ -134,6 +166,16 @@ impl Enc {
             if self.absent { "A" } else { "" },
             if self.empty { "E" } else { "" },
             if self.misnamed { "M" } else { "" },
+            if self.bom { "B" } else { "" },
+            if self.members > 1 { format!("m{}", self.members) } else { String::new() },
+            match self.cut {
+                Some(Cut::Header(k)) => format!("cH{}", k),
+                Some(Cut::Early(k)) => format!("cE{}", k),
+                Some(Cut::Frac(k)) => format!("cF{}", k),
+                Some(Cut::Trailer(k)) => format!("cT{}", k),
+                None => String::new(),
+            },
+            if self.nonutf8_name { "U" } else { "" },
         )
     }
 }
@@ -188,7 +230,11 @@ fn render(rng: &mut Rng, cols: &[&str], rows: &[(Vec<String>, bool)], enc: &Enc)
         }
         lines.push(out.join(","));
     }
-    let mut text = lines.join(nl);
+    let mut text = String::new();
+    if enc.bom {
+        text.push('\u{feff}');
+    }
+    text.push_str(&lines.join(nl));
     if enc.final_newline {
         text.push_str(nl);
         for _ in 0..enc.trailing_blank {
@@ -211,16 +257,58 @@ fn text_lines(text: &str) -> usize {
     }
 }
 
-fn write_file(path: &Path, text: &str, gz: bool) {
-    let f = std::fs::File::create(path).expect("create scratch file");
-    if gz {
-        let mut enc = flate2::write::GzEncoder::new(f, flate2::Compression::default());
-        enc.write_all(text.as_bytes()).expect("gz write");
-        enc.finish().expect("gz finish");
-    } else {
-        let mut f = f;
-        f.write_all(text.as_bytes()).expect("write");
+fn gz_member(bytes: &[u8]) -> Vec<u8> {
+    let mut enc = flate2::write::GzEncoder::new(Vec::new(), flate2::Compression::default());
+    enc.write_all(bytes).expect("gz write");
+    enc.finish().expect("gz finish")
+}
+
+/// the bytes of a gzip file holding `text` in `members` members (split at arbitrary byte positions,
+/// also inside a line), cut short as asked
+fn gz_bytes(text: &str, members: usize, cut: Option<Cut>) -> Vec<u8> {
+    let raw = text.as_bytes();
+    let m = members.max(1);
+    let mut out: Vec<u8> = vec![];
+    for k in 0..m {
+        let a = raw.len() * k / m;
+        let b = raw.len() * (k + 1) / m;
+        out.extend(gz_member(&raw[a..b]));
     }
+    let keep = match cut {
+        None => out.len(),
+        Some(Cut::Header(k)) => k.min(out.len()),
+        Some(Cut::Early(k)) => (10 + k).min(out.len() - 1),
+        Some(Cut::Frac(k)) => (out.len() * k / 1000).clamp(2, out.len() - 1),
+        Some(Cut::Trailer(k)) => out.len() - k.clamp(1, 8),
+    };
+    out.truncate(keep);
+    out
+}
+
+fn write_bytes(path: &Path, bytes: &[u8]) {
+    let mut f = std::fs::File::create(path).expect("create scratch file");
+    f.write_all(bytes).expect("write");
+}
+
+fn write_file(path: &Path, text: &str, gz: bool) {
+    if gz {
+        write_bytes(path, &gz_bytes(text, 1, None));
+    } else {
+        write_bytes(path, text.as_bytes());
+    }
+}
+
+fn write_enc(path: &Path, text: &str, gz: bool, enc: &Enc) {
+    if gz {
+        write_bytes(path, &gz_bytes(text, enc.members, enc.cut));
+    } else {
+        write_bytes(path, text.as_bytes());
+    }
+}
+
+/// the csv reader finds a header row: some byte other than a line terminator (after the BOM)
+fn has_header(text: &str) -> bool {
+    text.trim_start_matches('\u{feff}').bytes().any(|b| b != b'\n' && b != b'\r')
 }
 
 fn f32_text(x: f32) -> String {
@@ -229,6 +317,9 @@ fn f32_text(x: f32) -> String {
 
 fn e_cells(r: &ERow) -> (Vec<String>, bool) {
     let mut c = vec![r.id.to_string(), r.src.to_string(), r.dst.to_string(), format!("{}", r.dist)];
+    if let Some((k, t)) = &r.alt {
+        c[*k] = t.clone();
+    }
     if let Some((k, t)) = &r.bad {
         c[*k] = t.clone();
     }
@@ -237,6 +328,9 @@ fn e_cells(r: &ERow) -> (Vec<String>, bool) {
 
 fn v_cells(r: &VRow) -> (Vec<String>, bool) {
     let mut c = vec![r.id.to_string(), f32_text(r.x), f32_text(r.y)];
+    if let Some((k, t)) = &r.alt {
+        c[*k] = t.clone();
+    }
     if let Some((k, t)) = &r.bad {
         c[*k] = t.clone();
     }
@@ -255,6 +349,8 @@ struct Case {
     n_v: Option<usize>,
     e_enc: Enc,
     v_enc: Enc,
+    /// the `verbose` argument of `Graph::from_files` (two log lines; never the result)
+    verbose: Option<bool>,
 }
 
 impl Case {
@@ -280,6 +376,8 @@ impl Case {
             && !self.v_enc.empty
             && !self.e_enc.cr_only
             && !self.v_enc.cr_only
+            && self.e_enc.cut.is_none()
+            && self.v_enc.cut.is_none()
             && self.n_v.map(|n| n == nv).unwrap_or(true)
     }
 }
@@ -296,6 +394,20 @@ struct Written {
     v_path: PathBuf,
     e_lines: usize,
     v_lines: usize,
+    e_header: bool,
+    v_header: bool,
+}
+
+fn scratch_name(dir: &Path, name: String, nonutf8: bool) -> PathBuf {
+    if nonutf8 {
+        use std::os::unix::ffi::OsStringExt;
+        let mut b = name.into_bytes();
+        b.insert(0, 0xff);
+        b.insert(1, 0xfe);
+        dir.join(std::ffi::OsString::from_vec(b))
+    } else {
+        dir.join(name)
+    }
 }
 
 /// writes the two files of a case (with the given gzip flags) and returns paths and line counts
@@ -308,49 +420,75 @@ fn write_case(dir: &Path, tag: &str, rng_seed: &Rng, case: &Case, e_gz: bool, v_
     let v_text = render(&mut rng, &V_COLS, &v_rows, &case.v_enc);
     let e_name_gz = e_gz != case.e_enc.misnamed;
     let v_name_gz = v_gz != case.v_enc.misnamed;
-    let e_path = dir.join(format!("{}_edges.csv{}", tag, if e_name_gz { ".gz" } else { "" }));
-    let v_path = dir.join(format!("{}_vertices.csv{}", tag, if v_name_gz { ".gz" } else { "" }));
+    let e_path = scratch_name(dir, format!("{}_edges.csv{}", tag, if e_name_gz { ".gz" } else { "" }), case.e_enc.nonutf8_name);
+    let v_path = scratch_name(dir, format!("{}_vertices.csv{}", tag, if v_name_gz { ".gz" } else { "" }), case.v_enc.nonutf8_name);
     let _ = std::fs::remove_file(&e_path);
     let _ = std::fs::remove_file(&v_path);
     if !case.e_enc.absent {
-        write_file(&e_path, &e_text, e_gz);
+        write_enc(&e_path, &e_text, e_gz, &case.e_enc);
     }
     if !case.v_enc.absent {
-        write_file(&v_path, &v_text, v_gz);
+        write_enc(&v_path, &v_text, v_gz, &case.v_enc);
     }
     // the scan decides compression by content (like the csv reader), so the text alone fixes the count
-    Written { e_path, v_path, e_lines: text_lines(&e_text), v_lines: text_lines(&v_text) }
+    Written {
+        e_path,
+        v_path,
+        e_lines: text_lines(&e_text),
+        v_lines: text_lines(&v_text),
+        e_header: has_header(&e_text),
+        v_header: has_header(&v_text),
+    }
 }
 
-fn case_line(case: &Case, w: &Written) -> String {
-    let mut t: Vec<String> = vec!["load".into()];
-    t.push(format!("{}:{}:{}", case.kind, case.e_enc.descr(), case.v_enc.descr()));
-    t.push(opt_tok(case.n_e));
-    t.push(opt_tok(case.n_v));
+/// the two files as the model receives them: readable, text lines, header row found, rows
+fn file_spec_tokens(case: &Case, w: &Written) -> Vec<String> {
+    let mut t: Vec<String> = vec![];
     // edge file
-    t.push(if case.e_enc.absent { "0" } else { "1" }.into());
+    t.push(if case.e_enc.absent || case.e_enc.cut.is_some() { "0" } else { "1" }.into());
     t.push(w.e_lines.to_string());
+    t.push(if w.e_header { "1" } else { "0" }.into());
     let e_rows: Vec<&ERow> = if case.e_enc.empty || case.e_enc.absent { vec![] } else { case.edges.iter().collect() };
     t.push(e_rows.len().to_string());
     for r in e_rows {
         if case.e_bad(r) {
             t.push("b".into());
         } else {
-            t.push(format!("r {} {} {} {}", r.id, r.src, r.dst, fbits(r.dist)));
+            t.push(format!("r {} {} {} {}", r.id, r.src, r.dst, r.dist.to_bits()));
         }
     }
     // vertex file
-    t.push(if case.v_enc.absent { "0" } else { "1" }.into());
+    t.push(if case.v_enc.absent || case.v_enc.cut.is_some() { "0" } else { "1" }.into());
     t.push(w.v_lines.to_string());
+    t.push(if w.v_header { "1" } else { "0" }.into());
     let v_rows: Vec<&VRow> = if case.v_enc.empty || case.v_enc.absent { vec![] } else { case.vertices.iter().collect() };
     t.push(v_rows.len().to_string());
     for r in v_rows {
         if case.v_bad(r) {
             t.push("b".into());
         } else {
-            t.push(format!("r {} {} {}", r.id, fbits(r.x as f64), fbits(r.y as f64)));
+            t.push(format!("r {} {} {}", r.id, (r.x as f64).to_bits(), (r.y as f64).to_bits()));
         }
     }
+    t
+}
+
+fn case_line(case: &Case, w: &Written) -> String {
+    let mut t: Vec<String> = vec!["load".into()];
+    t.push(format!(
+        "{}:{}:{}:v{}",
+        case.kind,
+        case.e_enc.descr(),
+        case.v_enc.descr(),
+        match case.verbose {
+            None => "n",
+            Some(true) => "t",
+            Some(false) => "f",
+        }
+    ));
+    t.push(opt_tok(case.n_e));
+    t.push(opt_tok(case.n_v));
+    t.extend(file_spec_tokens(case, w));
     t.join(" ")
 }
 
@@ -392,6 +530,12 @@ fn triplets_out(l: Vec<(VertexId, EdgeId, VertexId)>) -> String {
     t.join(" ")
 }
 
+fn attrs_out(l: Vec<(&Vertex, &Edge, &Vertex)>) -> String {
+    let mut t = vec![l.len().to_string()];
+    t.extend(l.iter().map(|(a, e, b)| format!("{} {} {}", vertex_out(a), edge_out(e), vertex_out(b))));
+    t.join(" ")
+}
+
 fn graph_out(g: &Graph) -> String {
     let ne = g.n_edges();
     let nv = g.n_vertices();
@@ -425,6 +569,8 @@ fn graph_out(g: &Graph) -> String {
         t.push(nat_list(&g.incident_edges(&id, &Direction::Reverse)));
         t.push(ex_out(g.incident_triplet_ids(&id, &Direction::Forward), triplets_out));
         t.push(ex_out(g.incident_triplet_ids(&id, &Direction::Reverse), triplets_out));
+        t.push(ex_out(g.incident_triplet_attributes(&id, &Direction::Forward), attrs_out));
+        t.push(ex_out(g.incident_triplet_attributes(&id, &Direction::Reverse), attrs_out));
     }
     t.push("ids".into());
     t.push(nat_list(&g.edge_ids().collect::<Vec<_>>()));
@@ -434,9 +580,13 @@ fn graph_out(g: &Graph) -> String {
 }
 
 fn load(w: &Written, n_e: Option<usize>, n_v: Option<usize>) -> Result<Result<Graph, NetworkError>, String> {
+    load_v(w, n_e, n_v, Some(false))
+}
+
+fn load_v(w: &Written, n_e: Option<usize>, n_v: Option<usize>, verbose: Option<bool>) -> Result<Result<Graph, NetworkError>, String> {
     let e = w.e_path.clone();
     let v = w.v_path.clone();
-    std::panic::catch_unwind(move || Graph::from_files(&e, &v, n_e, n_v, Some(false))).map_err(|p| {
+    std::panic::catch_unwind(move || Graph::from_files(&e, &v, n_e, n_v, verbose)).map_err(|p| {
         if let Some(s) = p.downcast_ref::<String>() {
             s.clone()
         } else if let Some(s) = p.downcast_ref::<&str>() {
@@ -602,7 +752,7 @@ fn mk_vertices(rng: &mut Rng, n: usize) -> Vec<VRow> {
     (0..n)
         .map(|i| {
             let (x, y) = coord(rng);
-            VRow { id: i, x, y, bad: None, short: false }
+            VRow { id: i, x, y, bad: None, short: false, alt: None }
         })
         .collect()
 }
@@ -611,7 +761,7 @@ fn mk_edges(rng: &mut Rng, pairs: &[(usize, usize)]) -> Vec<ERow> {
     pairs
         .iter()
         .enumerate()
-        .map(|(i, &(s, d))| ERow { id: i, src: s, dst: d, dist: nice_dist(rng), bad: None, short: false })
+        .map(|(i, &(s, d))| ERow { id: i, src: s, dst: d, dist: nice_dist(rng), bad: None, short: false, alt: None })
         .collect()
 }
 
@@ -666,6 +816,74 @@ fn gen_pairs(rng: &mut Rng, nv: usize, big: bool) -> Vec<(usize, usize)> {
     pairs
 }
 
+/// lengths and coordinates that no road has but the number parsers accept (the loader stores what the
+/// file says: not-a-number, infinities, negative and zero lengths, values beyond the f32 range), and
+/// other spellings of ordinary numbers
+fn special_numbers(rng: &mut Rng, edges: &mut [ERow], vertices: &mut [VRow]) {
+    let dists: [(f64, Option<&str>); 12] = [
+        (f64::NAN, None),
+        (f64::INFINITY, None),
+        (f64::NEG_INFINITY, None),
+        (f64::INFINITY, Some("1e999")),
+        (0.0, Some("1e-999")),
+        (-5.25, None),
+        (0.0, None),
+        (-0.0, None),
+        (5e-324, None),
+        (1.7976931348623157e308, None),
+        (12.5, Some("+12.5")),
+        (1250.0, Some("1.25E3")),
+    ];
+    let coords: [(f32, Option<&str>); 10] = [
+        (f32::NAN, None),
+        (f32::INFINITY, None),
+        (f32::NEG_INFINITY, Some("-inf")),
+        (f32::INFINITY, Some("1e39")),
+        (0.0, Some("1e-50")),
+        (-0.0, None),
+        (-180.0, None),
+        (540.5, None),
+        (3.4028235e38, None),
+        (1.5, Some("+1.5")),
+    ];
+    let ids: [&str; 3] = ["+", "00", "0"];
+    for _ in 0..(1 + rng.below(4)) {
+        if !edges.is_empty() && rng.chance(2, 3) {
+            let a = rng.below(edges.len());
+            match rng.below(4) {
+                0 => {
+                    // another spelling of the id or of an endpoint
+                    let col = rng.below(3);
+                    let val = [edges[a].id, edges[a].src, edges[a].dst][col];
+                    edges[a].alt = Some((col, format!("{}{}", ids[rng.below(3)], val)));
+                }
+                _ => {
+                    let (d, t) = dists[rng.below(dists.len())];
+                    edges[a].dist = d;
+                    edges[a].alt = t.map(|t| (3, t.to_string()));
+                }
+            }
+        } else if !vertices.is_empty() {
+            let a = rng.below(vertices.len());
+            match rng.below(4) {
+                0 => {
+                    vertices[a].alt = Some((0, format!("{}{}", ids[rng.below(3)], vertices[a].id)));
+                }
+                k => {
+                    let (c, t) = coords[rng.below(coords.len())];
+                    if k == 1 {
+                        vertices[a].x = c;
+                        vertices[a].alt = t.map(|t| (1, t.to_string()));
+                    } else {
+                        vertices[a].y = c;
+                        vertices[a].alt = t.map(|t| (2, t.to_string()));
+                    }
+                }
+            }
+        }
+    }
+}
+
 fn gen_well_formed(rng: &mut Rng, big: bool) -> Case {
     let nv = match rng.below(10) {
         0 => 0,
@@ -674,14 +892,18 @@ fn gen_well_formed(rng: &mut Rng, big: bool) -> Case {
         _ => 3 + rng.below(if big { 40 } else { 12 }),
     };
     let pairs = gen_pairs(rng, nv, big);
-    let vertices = mk_vertices(rng, nv);
-    let edges = mk_edges(rng, &pairs);
+    let mut vertices = mk_vertices(rng, nv);
+    let mut edges = mk_edges(rng, &pairs);
+    if rng.chance(1, 6) {
+        special_numbers(rng, &mut edges, &mut vertices);
+    }
     let n_e = if rng.chance(1, 2) { None } else { Some(edges.len()) };
     let n_v = if rng.chance(1, 2) { None } else { Some(nv) };
-    Case { kind: "wf", n_e, n_v, e_enc: Enc::random(rng, 4, true), v_enc: Enc::random(rng, 3, true), edges, vertices }
+    let verbose = [None, Some(true), Some(false)][rng.below(3)];
+    Case { kind: "wf", n_e, n_v, e_enc: Enc::random(rng, 4, true), v_enc: Enc::random(rng, 3, true), edges, vertices, verbose }
 }
 
-const MALFORMED: [&str; 18] = [
+const MALFORMED: [&str; 20] = [
     "edge-id-permuted",
     "edge-id-offset",
     "edge-id-duplicate",
@@ -700,6 +922,8 @@ const MALFORMED: [&str; 18] = [
     "fewer-vertex-rows",
     "cr-line-endings",
     "compression-misnamed",
+    "gzip-truncated",
+    "huge-id",
 ];
 
 fn bad_text(rng: &mut Rng, col_is_float: bool) -> String {
@@ -854,6 +1078,31 @@ fn gen_malformed(rng: &mut Rng, which: &'static str) -> Case {
                 }
             }
         }
+        "gzip-truncated" => {
+            let cut = match rng.below(6) {
+                0 => Cut::Header(2 + rng.below(8)),
+                1 => Cut::Early(rng.below(11)),
+                2 => Cut::Trailer(1 + rng.below(8)),
+                _ => Cut::Frac(1 + rng.below(999)),
+            };
+            if rng.chance(1, 2) {
+                c.e_enc.gz = true;
+                c.e_enc.cut = Some(cut);
+            } else {
+                c.v_enc.gz = true;
+                c.v_enc.cut = Some(cut);
+            }
+        }
+        "huge-id" => {
+            // ids at the top of the usize range (they parse; one more digit would not)
+            let big = [usize::MAX, usize::MAX - 1, (1usize << 63), u32::MAX as usize + 1][rng.below(4)];
+            match rng.below(4) {
+                0 => c.edges[rng.below(ne)].id = big,
+                1 => c.edges[rng.below(ne)].src = big,
+                2 => c.edges[rng.below(ne)].dst = big,
+                _ => c.vertices[rng.below(nv)].id = big,
+            }
+        }
         "fewer-vertex-rows" => {
             let keep = rng.below(nv);
             c.vertices.truncate(keep);
@@ -865,11 +1114,11 @@ fn gen_malformed(rng: &mut Rng, which: &'static str) -> Case {
 }
 
 fn e(id: usize, src: usize, dst: usize, dist: f64) -> ERow {
-    ERow { id, src, dst, dist, bad: None, short: false }
+    ERow { id, src, dst, dist, bad: None, short: false, alt: None }
 }
 
 fn v(id: usize, x: f32, y: f32) -> VRow {
-    VRow { id, x, y, bad: None, short: false }
+    VRow { id, x, y, bad: None, short: false, alt: None }
 }
 
 fn grid_vertices(n: usize) -> Vec<VRow> {
@@ -915,6 +1164,7 @@ fn corpus() -> Vec<Case> {
             n_v: if scan { None } else { Some(14) },
             e_enc,
             v_enc,
+            verbose: if scan { Some(true) } else { None },
         });
     }
     // six parallel edges 0->1, six self loops on 2, vertex 3 isolated
@@ -923,18 +1173,18 @@ fn corpus() -> Vec<Case> {
         pe.push(e(2 * k, 0, 1, 1.5 + k as f64));
         pe.push(e(2 * k + 1, 2, 2, 0.5 + k as f64));
     }
-    out.push(Case { kind: "wf", edges: pe, vertices: grid_vertices(4), n_e: None, n_v: None, e_enc: Enc::plain(4), v_enc: Enc::plain(3) });
+    out.push(Case { kind: "wf", edges: pe, vertices: grid_vertices(4), n_e: None, n_v: None, e_enc: Enc::plain(4), v_enc: Enc::plain(3), verbose: Some(false) });
     // empty network, header only
-    out.push(Case { kind: "wf", edges: vec![], vertices: vec![], n_e: None, n_v: None, e_enc: Enc::plain(4), v_enc: Enc::plain(3) });
-    out.push(Case { kind: "wf", edges: vec![], vertices: vec![], n_e: Some(0), n_v: Some(0), e_enc: Enc::plain(4), v_enc: Enc::plain(3) });
+    out.push(Case { kind: "wf", edges: vec![], vertices: vec![], n_e: None, n_v: None, e_enc: Enc::plain(4), v_enc: Enc::plain(3), verbose: Some(false) });
+    out.push(Case { kind: "wf", edges: vec![], vertices: vec![], n_e: Some(0), n_v: Some(0), e_enc: Enc::plain(4), v_enc: Enc::plain(3), verbose: Some(false) });
     // vertices only
-    out.push(Case { kind: "wf", edges: vec![], vertices: grid_vertices(3), n_e: None, n_v: Some(3), e_enc: Enc::plain(4), v_enc: Enc::plain(3) });
+    out.push(Case { kind: "wf", edges: vec![], vertices: grid_vertices(3), n_e: None, n_v: Some(3), e_enc: Enc::plain(4), v_enc: Enc::plain(3), verbose: Some(false) });
     // one self loop on a single vertex, no final newline
     let mut nonl = Enc::plain(4);
     nonl.final_newline = false;
     let mut nonl_v = Enc::plain(3);
     nonl_v.final_newline = false;
-    out.push(Case { kind: "wf", edges: vec![e(0, 0, 0, 3.25)], vertices: grid_vertices(1), n_e: None, n_v: None, e_enc: nonl, v_enc: nonl_v });
+    out.push(Case { kind: "wf", edges: vec![e(0, 0, 0, 3.25)], vertices: grid_vertices(1), n_e: None, n_v: None, e_enc: nonl, v_enc: nonl_v, verbose: Some(false) });
 
     // --- witnesses of the findings: files that do not describe a network.  W1-W5 were accepted silently
     // and are rejected with a DatasetError since /repo 0316a94 and c6cac08; W6 was loaded with empty
@@ -950,6 +1200,7 @@ fn corpus() -> Vec<Case> {
         n_v: Some(2),
         e_enc: Enc::plain(4),
         v_enc: Enc::plain(3),
+        verbose: Some(false),
     });
     // W2: an edge ends at a vertex that is not in the vertex file
     out.push(Case {
@@ -960,6 +1211,7 @@ fn corpus() -> Vec<Case> {
         n_v: None,
         e_enc: Enc::plain(4),
         v_enc: Enc::plain(3),
+        verbose: Some(false),
     });
     // W3: the declared vertex count is smaller than the vertex file
     out.push(Case {
@@ -970,6 +1222,7 @@ fn corpus() -> Vec<Case> {
         n_v: Some(2),
         e_enc: Enc::plain(4),
         v_enc: Enc::plain(3),
+        verbose: Some(false),
     });
     // W4: vertex rows listed in another order than their ids
     out.push(Case {
@@ -980,6 +1233,7 @@ fn corpus() -> Vec<Case> {
         n_v: None,
         e_enc: Enc::plain(4),
         v_enc: Enc::plain(3),
+        verbose: Some(false),
     });
     // W5: a duplicated edge id leaving the same vertex overwrites the adjacency entry
     out.push(Case {
@@ -990,6 +1244,7 @@ fn corpus() -> Vec<Case> {
         n_v: None,
         e_enc: Enc::plain(4),
         v_enc: Enc::plain(3),
+        verbose: Some(false),
     });
     // W6: a well-formed vertex file with classic-Mac (lone CR) line endings and a scanned vertex count
     let mut cr = Enc::plain(3);
@@ -1002,6 +1257,7 @@ fn corpus() -> Vec<Case> {
         n_v: None,
         e_enc: Enc::plain(4),
         v_enc: cr,
+        verbose: Some(false),
     });
     // W8: the declared vertex count (3) covers an endpoint for which the vertex file (2 rows) has no row
     out.push(Case {
@@ -1012,6 +1268,7 @@ fn corpus() -> Vec<Case> {
         n_v: Some(3),
         e_enc: Enc::plain(4),
         v_enc: Enc::plain(3),
+        verbose: Some(false),
     });
     // W9: the same with a scanned count: a trailing blank line makes the scan see one vertex more
     let mut blank = Enc::plain(3);
@@ -1024,6 +1281,7 @@ fn corpus() -> Vec<Case> {
         n_v: None,
         e_enc: Enc::plain(4),
         v_enc: blank,
+        verbose: Some(false),
     });
     // W7: a gzip-compressed vertex file that is not named *.gz, scanned vertex count
     let mut mis = Enc::plain(3);
@@ -1037,6 +1295,7 @@ fn corpus() -> Vec<Case> {
         n_v: None,
         e_enc: Enc::plain(4),
         v_enc: mis,
+        verbose: Some(false),
     });
     // --- error kinds ---
     let base = Case {
@@ -1047,6 +1306,7 @@ fn corpus() -> Vec<Case> {
         n_v: None,
         e_enc: Enc::plain(4),
         v_enc: Enc::plain(3),
+        verbose: Some(false),
     };
     for (kind, f) in [
         ("missing-file", Box::new(|c: &mut Case| c.e_enc.absent = true) as Box<dyn Fn(&mut Case)>),
@@ -1113,7 +1373,7 @@ fn run_load_case(ctx: &mut Ctx, idx: usize, dir: &Path, case: &Case, rng: &Rng) 
     let tag = format!("c{}", idx);
     let w = write_case(dir, &tag, rng, case, case.e_enc.gz, case.v_enc.gz);
     let line = case_line(case, &w);
-    let res = load(&w, case.n_e, case.n_v);
+    let res = load_v(&w, case.n_e, case.n_v, case.verbose);
     let out = outcome_line(&res);
     ctx.emit(idx, line.clone(), out.clone());
 
@@ -1207,13 +1467,35 @@ fn run_load_case(ctx: &mut Ctx, idx: usize, dir: &Path, case: &Case, rng: &Rng) 
                 || (!case.v_enc.empty && case.vertices.iter().any(|r| case.v_bad(r)));
             if case.e_enc.absent || case.v_enc.absent {
                 ctx.fail(idx, "graph_loader/missing-file-accepted", "a file is missing but the load succeeded".into());
+            } else if case.e_enc.cut.is_some() || case.v_enc.cut.is_some() {
+                ctx.fail(
+                    idx,
+                    "read_utils/truncated-gzip-accepted",
+                    format!(
+                        "a gzip file is cut short ({:?} / {:?}) but the load succeeded with {} edges and {} vertices ({} and {} are listed)",
+                        case.e_enc.cut,
+                        case.v_enc.cut,
+                        g.n_edges(),
+                        g.n_vertices(),
+                        case.edges.len(),
+                        case.vertices.len()
+                    ),
+                );
+            } else if case.e_enc.empty || case.v_enc.empty {
+                ctx.fail(
+                    idx,
+                    "read_utils/empty-file-accepted",
+                    format!("a file has no content at all (counts {:?}/{:?}) but the load succeeded", case.n_e, case.n_v),
+                );
             } else if any_bad {
                 ctx.fail(idx, "graph_loader/undecodable-row-accepted", "a row does not decode but the load succeeded".into());
             } else {
                 let edges: Vec<ERow> = if case.e_enc.empty { vec![] } else { case.edges.clone() };
                 let vertices: Vec<VRow> = if case.v_enc.empty { vec![] } else { case.vertices.clone() };
                 if let Some((aspect, msg)) = check_by_id(g, &edges, &vertices) {
-                    if wf {
+                    if wf && (case.e_enc.gz && case.e_enc.members > 1 || case.v_enc.gz && case.v_enc.members > 1) {
+                        ctx.fail(idx, "read_utils/gzip-later-members-dropped", format!("[gzip members {}/{}] {}", case.e_enc.members, case.v_enc.members, msg));
+                    } else if wf {
                         ctx.fail(idx, &format!("graph/{}", aspect), msg);
                     } else {
                         ctx.fail(idx, finding_key(case, &edges, &vertices, g.adj.len()), format!("[{}; {}] the load succeeds but {}", case.kind, aspect, msg));
@@ -1387,5 +1669,5 @@ pub fn run(ctx: &mut Ctx) -> &'static str {
         run_table_case(ctx, idx, &dir, &mut rng, k % 4);
     }
     let _ = std::fs::remove_dir_all(&dir);
-    "edge/vertex CSV files written by the harness (plain and gzip; permuted and extra columns in both files, padding, quoting, CRLF, missing final newline, trailing blank lines; vertex degrees 0-12 and above, parallel edges, self loops, isolated vertices; explicit and scanned counts) loaded with the real Graph::from_files, every accessor printed for every edge/vertex id and one id beyond each range; 18 kinds of malformed input (ids not row numbers, endpoints without vertex, wrong declared counts, missing column, undecodable cell, short row, missing or empty file, lone-CR line endings, compression not matching the file name); per-edge tables (speed, grade, road class, heading) read by the real readers; non-trivial = a network with at least one edge, a malformed input, or a table; distinct by full case text"
+    "edge/vertex CSV files written by the harness (plain and gzip; permuted and extra columns in both files, padding, quoting, CRLF, missing final newline, trailing blank lines; vertex degrees 0-12 and above, parallel edges, self loops, isolated vertices; explicit and scanned counts) loaded with the real Graph::from_files, every accessor printed for every edge/vertex id and one id beyond each range; 20 kinds of malformed input (ids not row numbers, endpoints without vertex, wrong declared counts, missing column, undecodable cell, short row, missing or empty file, lone-CR line endings, compression not matching the file name); per-edge tables (speed, grade, road class, heading) read by the real readers; non-trivial = a network with at least one edge, a malformed input, or a table; distinct by full case text"
 }
